@@ -170,8 +170,8 @@ def tolerance(f, args):
         big = max((abs(v) for a in args for v in a.cells() if isinstance(v, float) and not isinstance(v, bool)), default=0)
         abs_ = 1e-12 * big ** len(args) if big < 1e50 else 0.0
     elif f in ('MOD', 'CEILING', 'FLOOR'):
-        xs = [a.rows[0][0] for a in args if a.t != 'omit']
-        big = max((abs(v) for v in xs if isinstance(v, float) and not isinstance(v, bool)), default=0.0)
+        xs = [X.to_number(a.rows[0][0])[0] for a in args if a.t != 'omit']
+        big = max((abs(v) for v in xs if isinstance(v, float)), default=0.0)
         abs_ = 1e-12 * big
     elif f in ('SIN', 'COS', 'TAN', 'TANH', 'SINH', 'ATAN', 'ASIN', 'ASINH', 'ATANH'):
         abs_ = 1e-15
@@ -820,7 +820,7 @@ FLOORS.update({k: ('count', {'quick': 60, 'thorough': 600}) for k in (
 
 def parts(tier, seed):
     q = tier == 'quick'
-    n = 700 if q else 40000
+    n = 700 if q else 25000
     return [
         ('enum', 'grid', _grid(tier), 300, False),
         ('hyp', 'logic', n),
